@@ -48,6 +48,9 @@ inductive Class
   | std
   | stk (frozen : Nat)
   | bind
+  /-- a binding output whose previous transaction sits at a height ≥ MASSIP0002WarmUpHeight (mined there, or pending
+      above such a tip): signWitnessTx runs the engine with ScriptMASSip2, which adds the binding CSV prelude -/
+  | bind2
   | other
   deriving DecidableEq, Repr, Inhabited
 
@@ -99,10 +102,17 @@ structure Witness (C : Crypto) where
 
 /-- OP_CHECKSEQUENCEVERIFY as the engine applies it to staking outputs (lock = frozen + 1): the input's
     sequence must not have the disable bit (2^63), must be of block type (bit 38 clear) and its low
-    32 bits must reach the lock. Other classes carry no sequence condition below the MASSIP-2 height. -/
+    32 bits must reach the lock. Under ScriptMASSip2 (class `bind2`) binding outputs carry the same rule with
+    lock = MASSIP0002BindingLockedPeriod = 2^32 - 2. Other classes carry no sequence condition. -/
 def seqOk : Class → Nat → Bool
   | .stk f, s => decide (s < 2^63) && decide ((s / 2^38) % 2 = 0) && decide (f + 1 ≤ s % 2^32)
+  | .bind2, s => decide (s < 2^63) && decide ((s / 2^38) % 2 = 0) && decide (2^32 - 2 ≤ s % 2^32)
   | _, _ => true
+
+/-- the class as the engine run of signWitnessTx treats it: a binding output whose previous transaction sits at a height
+    ≥ the MASSIP-2 warm-up height (`forks.EnforceMASSIP0002WarmUp(prevHeight)`) is run under ScriptMASSip2 -/
+def Class.atHeight (warm : Nat) (c : Class) (prevHeight : Nat) : Class :=
+  if c = .bind ∧ warm ≤ prevHeight then .bind2 else c
 
 /-- the consensus script engine and the signature hash, abstractly -/
 structure Engine (C : Crypto) (A : Type) where
